@@ -212,7 +212,7 @@ impl<'a> Dfs<'a> {
 		if self.ops.len() <= self.cert_depth {
 			check_cert(self.ctx, &self.case, self.key, dn, m, &ops_text(&self.ops));
 		}
-		if self.ops.len() == self.max_len {
+		if self.ops.len() >= self.max_len {
 			return;
 		}
 		for op in self.all_ops() {
@@ -249,7 +249,7 @@ impl<'a> Dfs<'a> {
 
 pub fn run(ctx: &Ctx) {
 	let key = crate::any_key();
-	let max_len = ctx.scale(6, 7) as usize;
+	let max_len = if ctx.quick() { 6 } else { 7 };
 	let (max_len, cert_depth) = if cfg!(miri) { (2, 1) } else { (max_len, 3) };
 	let types = small_types();
 	let values = small_values();
